@@ -61,6 +61,8 @@ pub struct Inv {
     pub trans: bool,
     pub input: bool,
     pub scalars: bool,
+    pub contracts: bool,
+    pub kinds: bool,
     /// violated clauses (stable keys) with a detail
     pub failures: Vec<(String, String)>,
 }
@@ -183,6 +185,8 @@ pub fn invariants(s: &Schema) -> Inv {
         if present != referenced { scalars_ok = false; fail("builtin-scalars-exact", format!("{b}: present={present} referenced={referenced}")); }
     }
     inv.roots = roots_ok; inv.impl_kind = impl_kind; inv.trans = trans; inv.input = input_ok; inv.scalars = scalars_ok;
+    inv.contracts = !inv.failures.iter().any(|(k, _)| k == "field-contract" || k == "argument-contract");
+    inv.kinds = !inv.failures.iter().any(|(k, _)| ["field-output-type", "argument-input-type", "input-field-input-type", "union-member-object"].contains(&k.as_str()));
     inv
 }
 
@@ -228,11 +232,182 @@ fn export(s: &Schema) -> Vec<String> {
     out.push(enc(&ts.join("|")));
     let drefs: Vec<String> = s.directive_definitions.values().flat_map(|d| d.arguments.iter().map(|a| a.ty.inner_named_type().to_string())).collect();
     out.push(enc(&drefs.join(",")));
+    // fields of every type (for the contract evaluator)
+    fn ty_enc(t: &Type) -> String {
+        match t { Type::Named(n) => format!("n{n};"), Type::NonNullNamed(n) => format!("N{n};"), Type::List(x) => format!("l{}", ty_enc(x)), Type::NonNullList(x) => format!("L{}", ty_enc(x)) }
+    }
+    let tf: Vec<String> = s.types.values().map(|t| fields_of(t).iter().map(|(n, ty, args)| format!("{n}~{}~{}", ty_enc(ty), args.iter().map(|(an, at, req)| format!("{an}^{at}^{}", if *req { "r" } else { "o" })).collect::<Vec<_>>().join(","))).collect::<Vec<_>>().join("&")).collect();
+    out.push(enc(&tf.join("|")));
+    // the subtype relation in the specification's sense: object/interface declaring an interface, object member of a union
+    let mut subs: Vec<String> = vec![];
+    for (n, t) in &s.types {
+        for i in implements_of(t) { if matches!(s.types.get(i.as_str()), Some(ExtendedType::Interface(_))) { subs.push(format!("{i}>{n}")); } }
+        if let ExtendedType::Union(u) = t { for m in &u.members { if matches!(s.types.get(m.name.as_str()), Some(ExtendedType::Object(_))) { subs.push(format!("{n}>{}", m.name)); } } }
+    }
+    out.push(enc(&subs.join(",")));
+    let kenv: Vec<String> = s.types.iter().map(|(n, t)| format!("{n}:{}", match t { ExtendedType::Scalar(_) => "s", ExtendedType::Object(_) => "o", ExtendedType::Interface(_) => "i", ExtendedType::Union(_) => "u", ExtendedType::Enum(_) => "e", ExtendedType::InputObject(_) => "n" })).collect();
+    out.push(enc(&kenv.join(",")));
+    let mut refs: Vec<String> = s.types.values().map(|t| {
+        let fs = fields_of(t);
+        let ft: Vec<String> = fs.iter().map(|f| f.1.inner_named_type().to_string()).collect();
+        let at: Vec<String> = fs.iter().flat_map(|f| f.2.iter().map(|a| a.1.inner_named_type().to_string())).collect();
+        let ift: Vec<String> = if let ExtendedType::InputObject(io) = t { io.fields.values().map(|f| f.ty.inner_named_type().to_string()).collect() } else { vec![] };
+        let ms: Vec<String> = if let ExtendedType::Union(u) = t { u.members.iter().map(|m| m.name.to_string()).collect() } else { vec![] };
+        format!("{};{};{};{}", ft.join(","), at.join(","), ift.join(","), ms.join(","))
+    }).collect();
+    refs.push(format!(";{};;", drefs.join(",")));
+    out.push(enc(&refs.join("|")));
     out
 }
 
 fn bits(i: &Inv) -> String {
-    [i.roots, i.impl_kind, i.trans, i.input, i.scalars].iter().map(|b| if *b { '1' } else { '0' }).collect()
+    [i.roots, i.impl_kind, i.trans, i.input, i.scalars, i.contracts, i.kinds].iter().map(|b| if *b { '1' } else { '0' }).collect()
+}
+
+/// the invariant checker + stream case for one `Valid<Schema>`; `src` describes how it was reached
+fn check_valid(ctx: &mut Ctx, valid: &apollo_compiler::validation::Valid<Schema>, src: &str, label: &str) {
+    ctx.stat("valid_schemas");
+    ctx.stat(&format!("valid_via:{label}"));
+    let inv = invariants(valid);
+    for (k, d) in &inv.failures { ctx.fail(&format!("invariant:{k}"), src, &format!("Valid<Schema> violates the clause: {d} (generator: {label})")); }
+    let b = bits(&inv);
+    ctx.case("c15.inv", &export(valid), &b);
+    ctx.nontrivial(src);
+    // shape statistics of what the accepted schemas exercise
+    let s: &Schema = valid;
+    if s.types.values().any(|t| !implements_of(t).is_empty()) { ctx.stat("valid_with_implements"); }
+    if s.types.values().any(|t| implements_of(t).len() > 1) { ctx.stat("valid_with_transitive_or_multiple_implements"); }
+    if s.types.values().any(|t| matches!(t, ExtendedType::InputObject(_))) { ctx.stat("valid_with_input_objects"); }
+    if s.schema_definition.mutation.is_some() || s.schema_definition.subscription.is_some() { ctx.stat("valid_with_several_roots"); }
+    let present = BUILTIN_SCALARS.iter().filter(|b| s.types.contains_key(**b)).count();
+    ctx.stat(&format!("valid_builtin_scalars_present_{present}"));
+}
+
+// ---------------------------------------------------------------------------------------------
+// histories: Valid<Schema> → into_inner() → programmatic edits through the public API → validate()
+
+pub fn retarget(t: &Type, to: &apollo_compiler::Name) -> Type {
+    match t {
+        Type::Named(_) => Type::Named(to.clone()),
+        Type::NonNullNamed(_) => Type::NonNullNamed(to.clone()),
+        Type::List(x) => Type::List(Box::new(retarget(x, to))),
+        Type::NonNullList(x) => Type::NonNullList(Box::new(retarget(x, to))),
+    }
+}
+
+fn is_builtin_scalar_name(n: &str) -> bool { BUILTIN_SCALARS.contains(&n) }
+
+/// one random edit; returns its description, or None when no site exists
+pub fn edit(schema: &mut Schema, r: &mut Rng) -> Option<String> {
+    // sites in user-defined types whose inner named type is a built-in scalar
+    let mut field_sites: Vec<(String, String)> = vec![];
+    let mut arg_sites: Vec<(String, String, usize)> = vec![];
+    let mut input_sites: Vec<(String, String)> = vec![];
+    let mut composite: Vec<(String, usize)> = vec![];
+    for (tn, t) in &schema.types {
+        if t.is_built_in() { continue; }
+        let fs = fields_of(t);
+        if matches!(t, ExtendedType::Object(_) | ExtendedType::Interface(_)) { composite.push((tn.to_string(), fs.len())); }
+        for (fname, ty, args) in &fs {
+            if is_builtin_scalar_name(ty.inner_named_type()) { field_sites.push((tn.to_string(), fname.clone())); }
+            for (k, a) in args.iter().enumerate() { if is_builtin_scalar_name(a.1.inner_named_type()) { arg_sites.push((tn.to_string(), fname.clone(), k)); } }
+        }
+        if let ExtendedType::InputObject(io) = t { for f in io.fields.values() { if is_builtin_scalar_name(f.ty.inner_named_type()) { input_sites.push((tn.to_string(), f.name.to_string())); } } }
+    }
+    let to_s = *r.pick(&BUILTIN_SCALARS);
+    let to = apollo_compiler::Name::new(to_s).unwrap();
+    fn fields_mut<'a>(t: &'a mut ExtendedType) -> Option<&'a mut apollo_compiler::collections::IndexMap<apollo_compiler::Name, apollo_compiler::schema::Component<apollo_compiler::schema::FieldDefinition>>> {
+        match t { ExtendedType::Object(o) => Some(&mut o.make_mut().fields), ExtendedType::Interface(i) => Some(&mut i.make_mut().fields), _ => None }
+    }
+    match r.below(6) {
+        0 | 1 => {
+            if field_sites.is_empty() { return None; }
+            let (tn, fname) = field_sites[r.below(field_sites.len())].clone();
+            let f = fields_mut(schema.types.get_mut(tn.as_str())?)?.get_mut(fname.as_str())?;
+            let old = f.ty.clone();
+            f.make_mut().ty = retarget(&old, &to);
+            Some(format!("{tn}.{fname}: {old} -> {to_s}"))
+        }
+        2 => {
+            if arg_sites.is_empty() { return None; }
+            let (tn, fname, k) = arg_sites[r.below(arg_sites.len())].clone();
+            let f = fields_mut(schema.types.get_mut(tn.as_str())?)?.get_mut(fname.as_str())?;
+            let a = &mut f.make_mut().arguments[k];
+            let old = (*a.ty).clone();
+            *a.make_mut().ty.make_mut() = retarget(&old, &to);
+            Some(format!("{tn}.{fname}(arg {k}): {old} -> {to_s}"))
+        }
+        3 => {
+            if input_sites.is_empty() { return None; }
+            let (tn, fname) = input_sites[r.below(input_sites.len())].clone();
+            let Some(ExtendedType::InputObject(io)) = schema.types.get_mut(tn.as_str()) else { return None };
+            let f = io.make_mut().fields.get_mut(fname.as_str())?;
+            let old = (*f.ty).clone();
+            *f.make_mut().ty.make_mut() = retarget(&old, &to);
+            Some(format!("input {tn}.{fname}: {old} -> {to_s}"))
+        }
+        4 => {
+            // remove a field that references a built-in scalar when another field remains
+            let cands: Vec<&(String, String)> = field_sites.iter().filter(|(tn, _)| composite.iter().any(|(n, k)| n == tn && *k > 1)).collect();
+            if cands.is_empty() { return None; }
+            let (tn, fname) = cands[r.below(cands.len())].clone();
+            fields_mut(schema.types.get_mut(tn.as_str())?)?.shift_remove(fname.as_str());
+            Some(format!("remove {tn}.{fname}"))
+        }
+        _ => {
+            // add a field of a built-in scalar, preferably one that has been pruned
+            if composite.is_empty() { return None; }
+            let pruned: Vec<&str> = BUILTIN_SCALARS.iter().filter(|b| !schema.types.contains_key(**b)).cloned().collect();
+            let b = if !pruned.is_empty() && r.chance(3, 4) { pruned[r.below(pruned.len())] } else { to_s };
+            let (tn, k) = composite[r.below(composite.len())].clone();
+            let fname = apollo_compiler::Name::new(&format!("added{k}")).ok()?;
+            let ty = if r.chance(1, 2) { Type::Named(apollo_compiler::Name::new(b).unwrap()) } else { Type::NonNullList(Box::new(Type::NonNullNamed(apollo_compiler::Name::new(b).unwrap()))) };
+            let fdef = apollo_compiler::schema::FieldDefinition { description: None, name: fname.clone(), arguments: vec![], ty, directives: Default::default() };
+            let fs = fields_mut(schema.types.get_mut(tn.as_str())?)?;
+            if fs.contains_key(&fname) { return None; }
+            fs.insert(fname, apollo_compiler::schema::Component::new(fdef));
+            Some(format!("add {tn}.added{k}: {b}"))
+        }
+    }
+}
+
+/// edit→validate rounds from one valid schema; every Valid<Schema> obtained is checked
+fn histories(ctx: &mut Ctx, start: &apollo_compiler::validation::Valid<Schema>, src: &str) {
+    let mut cur: Schema = start.clone().into_inner();
+    let mut log: Vec<String> = vec![];
+    let rounds = 1 + ctx.rng.below(3);
+    for _ in 0..rounds {
+        let n_edits = 1 + ctx.rng.below(3);
+        let mut any = false;
+        for _ in 0..n_edits {
+            match catch(|| { let mut c = cur.clone(); let d = edit(&mut c, &mut ctx.rng); (c, d) }) {
+                Err(p) => { ctx.fail("schema-edit-panic", src, &p); return; }
+                Ok((c, Some(d))) => { cur = c; log.push(d); any = true; }
+                Ok((_, None)) => {}
+            }
+        }
+        if !any { ctx.stat("history_no_edit_site"); return; }
+        log.push("validate".into());
+        let desc = format!("{src}\n## history: into_inner; {}", log.join("; "));
+        match catch(|| cur.clone().validate()) {
+            Err(p) => { ctx.fail("schema-validation-panic", &desc, &p); return; }
+            Ok(Err(_)) => { ctx.stat("history_edit_invalid"); return; }
+            Ok(Ok(v)) => {
+                ctx.stat("history_valid");
+                check_valid(ctx, &v, &desc, "history");
+                // validating again must not change anything observable by the checker either
+                if ctx.rng.chance(1, 2) {
+                    match catch(|| v.clone().into_inner().validate()) {
+                        Ok(Ok(v2)) => { ctx.stat("history_revalidated"); check_valid(ctx, &v2, &format!("{desc}; into_inner; validate"), "history"); }
+                        Ok(Err(e)) => { ctx.stat("history_revalidation_fails"); if std::env::var("VH_DEBUG").is_ok() { eprintln!("REVALIDATION-FAILS\n{desc}\n{}", e.errors); } } // C16's subject, not a clause of C15
+                        Err(p) => { ctx.fail("schema-validation-panic", &desc, &p); return; }
+                    }
+                }
+                cur = v.into_inner();
+                log.push("into_inner".into());
+            }
+        }
+    }
 }
 
 /// one schema text: build, validate, check the invariants on every `Valid<Schema>`, emit stream cases
@@ -252,21 +427,8 @@ pub fn examine(ctx: &mut Ctx, src: &str, label: &str) -> bool {
         Ok(Err(_)) => { ctx.stat("built_but_invalid"); return false; }
         Ok(Ok(v)) => v,
     };
-    ctx.stat("valid_schemas");
-    ctx.stat(&format!("valid_via:{label}"));
-    let inv = invariants(&valid);
-    for (k, d) in &inv.failures { ctx.fail(&format!("invariant:{k}"), src, &format!("Valid<Schema> violates the clause: {d} (generator: {label})")); }
-    let b = bits(&inv);
-    ctx.case("c15.inv", &export(&valid), &b);
-    ctx.nontrivial(src);
-    // shape statistics of what the accepted schemas exercise
-    let s: &Schema = &valid;
-    if s.types.values().any(|t| !implements_of(t).is_empty()) { ctx.stat("valid_with_implements"); }
-    if s.types.values().any(|t| implements_of(t).len() > 1) { ctx.stat("valid_with_transitive_or_multiple_implements"); }
-    if s.types.values().any(|t| matches!(t, ExtendedType::InputObject(_))) { ctx.stat("valid_with_input_objects"); }
-    if s.schema_definition.mutation.is_some() || s.schema_definition.subscription.is_some() { ctx.stat("valid_with_several_roots"); }
-    let present = BUILTIN_SCALARS.iter().filter(|b| s.types.contains_key(**b)).count();
-    ctx.stat(&format!("valid_builtin_scalars_present_{present}"));
+    check_valid(ctx, &valid, src, label);
+    if ctx.rng.chance(1, 3) || label == "generated" || label == "fixed" { histories(ctx, &valid, src); }
     true
 }
 
@@ -310,6 +472,32 @@ pub fn run(ctx: &mut Ctx) {
         "type Query { a: Nope }",
     ];
     for s in FIXED { examine(ctx, s, "fixed"); }
+    // scripted histories: retarget the only reference of a built-in scalar to a pruned one, and back
+    for (src, chain) in [("type Query { reading: Int }", vec!["Float", "ID", "Int", "String"]), ("type Query { a(x: Int): String } input In { f: Int }", vec!["Boolean", "Float"])] {
+        if let Ok(Ok(v)) = catch(|| Schema::parse_and_validate(src, "s.graphql")) {
+            let mut cur = v.into_inner();
+            let mut log = vec![];
+            for to in chain {
+                let name = apollo_compiler::Name::new(to).unwrap();
+                for t in cur.types.values_mut() {
+                    if t.is_built_in() { continue; }
+                    match t {
+                        ExtendedType::Object(o) => for f in o.make_mut().fields.values_mut() {
+                            if is_builtin_scalar_name(f.ty.inner_named_type()) && f.name != "a" { let old = f.ty.clone(); f.make_mut().ty = retarget(&old, &name); }
+                            for a in f.make_mut().arguments.iter_mut() { let old = (*a.ty).clone(); *a.make_mut().ty.make_mut() = retarget(&old, &name); }
+                        },
+                        ExtendedType::InputObject(io) => for f in io.make_mut().fields.values_mut() { let old = (*f.ty).clone(); *f.make_mut().ty.make_mut() = retarget(&old, &name); },
+                        _ => {}
+                    }
+                }
+                log.push(format!("retarget scalar references -> {to}; validate"));
+                match catch(|| cur.clone().validate()) {
+                    Ok(Ok(v)) => { check_valid(ctx, &v, &format!("{src}\n## history: into_inner; {}", log.join("; into_inner; ")), "history"); cur = v.into_inner(); }
+                    _ => break,
+                }
+            }
+        }
+    }
     let repo = std::env::var("VERIF_REPO").unwrap_or_else(|_| "/repo".into());
     for dir in ["diagnostics", "ok"] {
         let Ok(rd) = std::fs::read_dir(format!("{repo}/crates/apollo-compiler/test_data/{dir}")) else { continue };
@@ -323,7 +511,7 @@ pub fn run(ctx: &mut Ctx) {
             if !t.is_empty() { ctx.stat("repo_seed_files"); examine(ctx, &t, "seed"); }
         }
     }
-    let n = if ctx.thorough { 6000 } else { 600 };
+    let n = if ctx.thorough { 2000 } else { 600 };
     for round in 0..n {
         let base = random_valid(ctx);
         examine(ctx, &print_doc(&base), "generated");
